@@ -38,6 +38,11 @@ def cases(tier, rng):
             out.append(("(rename-term 7 %s)" % l, "rename"))
             if s[-1] in (X, Y):
                 out.append(("(rename-term 7 %s)" % lst(list(s[:-1]), s[-1]), "rename") if len(s) > 1 else ("(rename-term 3 %s)" % l, "rename"))
+    # the constant Nil as an element (last: the constructor drops it; elsewhere: it is kept as a term)
+    for p in [()] + [(x,) for x in SMALL] + list(itertools.product(SMALL, repeat=2)):
+        for q in (p + (NIL,), (NIL,) + p, p + (NIL, NIL)):
+            for vbar in (0, 1):
+                out.append(("(mll %d (%s))" % (vbar, " ".join(q)), "constructor-nil"))
     seen, res = set(), []
     for c in out:
         if c[0] not in seen: seen.add(c[0]); res.append(c)
@@ -45,7 +50,7 @@ def cases(tier, rng):
 
 RULE = ("element sequences of length 0-2 (all), 3 (all over a 6-term universe) and 3-5 (random) over atoms, numbers, "
         "variables, $_, [], nested lists with and without tail variable, complex terms; each through make_list_of_terms, "
-        "make_linked_list (with and without vbar), append, include/exclude (filters that keep everything but unbound variables) and clause renaming. Oracle on "
+        "make_linked_list (with and without vbar; also with the constant Nil among the terms - model-vs-implementation only), append, include/exclude (filters that keep everything but unbound variables) and clause renaming. Oracle on "
         "the implementation's own results: the view `elems` (python twin of Spec.SpecLists.elems) of the built list is exactly "
         "the given sequence / the specified splice, every count is the number of nodes, renaming keeps the shape. "
         "Non-trivial = the sequence contains a list-valued or empty-list element or a tail variable.")
